@@ -236,13 +236,13 @@ Qed.
 
 (* one replace directive on a map whose current names agree with the original ones as far as this directive is concerned *)
 Lemma apply_replace_step reqs vals r : NoDup reqs ->
-  (forall q, In q reqs -> bytes_eqb (fst (vals q)) (rr_old r) = bytes_eqb (fst q) (rr_old r)) ->
+  (is_nil (rr_oldv r) = true -> forall q, In q reqs -> bytes_eqb (fst (vals q)) (rr_old r) = bytes_eqb (fst q) (rr_old r)) ->
   gomod_apply_replace (vmap reqs vals) (conv_rr r) = vmap reqs (fun q => if rr_matches r q then newp r else vals q).
 Proof.
   intros Hnd H1. unfold gomod_apply_replace, conv_rr. cbn [gr_old gr_oldv gr_new gr_newv].
   rewrite is_nil_vpre, !trim_v_vpre. fold (newp r).
   destruct (is_nil (rr_oldv r)) eqn:Ev.
-  - match goal with |- context [map fst (filter ?f (vmap reqs vals))] =>
+  - specialize (H1 eq_refl). match goal with |- context [map fst (filter ?f (vmap reqs vals))] =>
       replace (map fst (filter f (vmap reqs vals))) with (filter (fun q => bytes_eqb (fst (vals q)) (rr_old r)) reqs)
         by (symmetry; apply (filter_vmap_fst reqs vals (fun v => bytes_eqb (fst v) (rr_old r)))) end.
     rewrite set_targets; [|exact Hnd|intros t Ht; now apply filter_In in Ht].
@@ -276,20 +276,19 @@ Lemma rr_matches_old r q : rr_matches r q = true -> fst q = rr_old r.
 Proof. unfold rr_matches. intros H. apply andb_true_iff in H as [H _]. now apply bytes_eqb_eq. Qed.
 
 Lemma replace_fold reqs : NoDup reqs -> forall rsl vals,
-  NoDup (map rr_old rsl) ->
-  (forall r r', In r rsl -> In r' rsl -> rr_new r <> rr_old r') ->
-  (forall q r, In q reqs -> In r rsl -> bytes_eqb (fst (vals q)) (rr_old r) = bytes_eqb (fst q) (rr_old r)) ->
+  NoDup (map rr_old rsl) -> gomod_chain_ok rsl = true ->
+  (forall q r, In q reqs -> In r rsl -> is_nil (rr_oldv r) = true -> bytes_eqb (fst (vals q)) (rr_old r) = bytes_eqb (fst q) (rr_old r)) ->
   fold_left gomod_apply_replace (map conv_rr rsl) (vmap reqs vals) = vmap reqs (fun q => seq_apply rsl (vals q) q).
 Proof.
-  intros Hnd. induction rsl as [|r rsl IH]; intros vals Ho Hno H1; [reflexivity|].
-  inversion Ho as [|? ? Hnin Ho']; subst. cbn [map fold_left].
-  rewrite apply_replace_step; [|exact Hnd|intros q Hq; apply H1; [exact Hq|now left]].
-  rewrite IH; [reflexivity|exact Ho'|intros a b Ha Hb; apply Hno; now right|].
-  intros q r' Hq Hr'. destruct (rr_matches r q) eqn:E.
+  intros Hnd. induction rsl as [|r rsl IH]; intros vals Ho Hc H1; [reflexivity|].
+  inversion Ho as [|? ? Hnin Ho']; subst. cbn [gomod_chain_ok] in Hc. apply andb_true_iff in Hc as [Hc1 Hc2]. cbn [map fold_left].
+  rewrite apply_replace_step; [|exact Hnd|intros Ev q Hq; apply H1; [exact Hq|now left|exact Ev]].
+  rewrite IH; [reflexivity|exact Ho'|exact Hc2|].
+  intros q r' Hq Hr' Ev'. destruct (rr_matches r q) eqn:E.
   - apply rr_matches_old in E. cbn [newp fst].
-    assert (bytes_eqb (rr_new r) (rr_old r') = false) as -> by (apply bytes_eqb_neq, Hno; [now left|now right]).
+    rewrite forallb_forall in Hc1. specialize (Hc1 r' Hr'). rewrite Ev' in Hc1. cbn [negb orb] in Hc1. apply negb_true_iff in Hc1. rewrite Hc1.
     symmetry. apply bytes_eqb_neq. rewrite E. intros E2. apply Hnin. rewrite E2. now apply in_map.
-  - apply H1; [exact Hq|now right].
+  - apply H1; [exact Hq|now right|exact Ev'].
 Qed.
 
 Lemma seq_is_find rsl q : NoDup (map rr_old rsl) -> seq_apply rsl q q = apply_replaces rsl q.
@@ -314,20 +313,15 @@ Qed.
 
 Lemma wf_gomod_parts rs : wf_gomod rs = true ->
   NoDup (map fst (gq_requires rs)) /\ ~ In s_stdlib (map fst (gq_requires rs)) /\
-  NoDup (map rr_old (gq_replaces rs)) /\ NoDup (map rr_new (gq_replaces rs)) /\
-  (forall r, In r (gq_replaces rs) -> ~ In (rr_new r) (map fst (gq_requires rs)) /\ ~ In (rr_new r) (map rr_old (gq_replaces rs)) /\ rr_new r <> s_stdlib).
+  NoDup (map rr_old (gq_replaces rs)) /\ (forall r, In r (gq_replaces rs) -> rr_new r <> s_stdlib) /\
+  NoDup (map (apply_replaces (gq_replaces rs)) (gq_requires rs)) /\ gomod_chain_ok (gq_replaces rs) = true.
 Proof.
-  unfold wf_gomod. intros H. apply andb_true_iff in H as [H H5]. apply andb_true_iff in H as [H H4].
+  unfold wf_gomod, wf_gomod_base. intros H. apply andb_true_iff in H as [H H6]. apply andb_true_iff in H as [H H5]. apply andb_true_iff in H as [H H4].
   apply andb_true_iff in H as [H H3]. apply andb_true_iff in H as [H1 H2].
-  apply nodup_bytes_NoDup in H1, H3, H4. apply negb_true_iff in H2.
+  apply nodup_bytes_NoDup in H1, H3. apply nodup_pkgs_NoDup in H5. apply negb_true_iff in H2.
   repeat split; auto.
   - intros T. apply bytes_mem_in in T. congruence.
-  - rewrite forallb_forall in H5. specialize (H5 (rr_new r) (in_map _ _ _ H)). apply andb_true_iff in H5 as [H5 _].
-    apply andb_true_iff in H5 as [H5 _]. apply negb_true_iff in H5. intros T. apply bytes_mem_in in T. congruence.
-  - rewrite forallb_forall in H5. specialize (H5 (rr_new r) (in_map _ _ _ H)). apply andb_true_iff in H5 as [H5 _].
-    apply andb_true_iff in H5 as [_ H5]. apply negb_true_iff in H5. intros T. apply bytes_mem_in in T. congruence.
-  - rewrite forallb_forall in H5. specialize (H5 (rr_new r) (in_map _ _ _ H)). apply andb_true_iff in H5 as [_ H5].
-    apply negb_true_iff, bytes_eqb_neq in H5. exact H5.
+  - intros r Hr. rewrite forallb_forall in H4. specialize (H4 r Hr). now apply negb_true_iff, bytes_eqb_neq in H4.
 Qed.
 
 Lemma NoDup_map_inj_on {A B} (f : A -> B) (l : list A) :
@@ -368,35 +362,26 @@ Qed.
 Lemma gomod_struct_exact_lemma rs : wf_gomod rs = true ->
   extract_gomod (struct_of_gomod rs) = Ok (expected_gomod rs).
 Proof.
-  intros H. apply wf_gomod_parts in H as (P1 & P2 & P3 & P4 & P5).
+  intros H. apply wf_gomod_parts in H as (P1 & P2 & P3 & P4 & P5 & P6).
   pose proof (NoDup_fst_NoDup _ P1) as ND.
   rewrite extract_gomod_eq. f_equal.
   assert (gm_m1 (struct_of_gomod rs) = vmap (gq_requires rs) (apply_replaces (gq_replaces rs))) as M1.
   { unfold gm_m1. rewrite gm_m0_struct by exact ND. unfold struct_of_gomod. cbn [gm_replace].
     change (map (fun r => {| gr_old := rr_old r; gr_oldv := vpre (rr_oldv r); gr_new := rr_new r; gr_newv := vpre (rr_newv r) |}) (gq_replaces rs))
       with (map conv_rr (gq_replaces rs)).
-    rewrite replace_fold; [|exact ND|exact P3| |reflexivity].
-    - unfold vmap. apply map_ext. intros q. f_equal. now apply seq_is_find.
-    - intros r r' Hr Hr' E2. destruct (P5 r Hr) as (_ & N2 & _). apply N2. rewrite E2. now apply in_map. }
+    rewrite replace_fold; [|exact ND|exact P3|exact P6|reflexivity].
+    unfold vmap. apply map_ext. intros q. f_equal. now apply seq_is_find. }
   set (reqs := gq_requires rs) in *. set (rsl := gq_replaces rs) in *.
   assert (gomod_goversion (struct_of_gomod rs) = stdlib_version (gq_go rs) (gq_toolchain rs)) as GV.
   { unfold gomod_goversion, stdlib_version, struct_of_gomod. cbn [gm_go gm_toolchain]. destruct (gq_toolchain rs); reflexivity. }
   unfold gm_m2. rewrite GV, M1. clear M1 GV.
-  (* values are pairwise different and none is stdlib *)
   set (vals := map (apply_replaces rsl) reqs).
   assert (NoDup vals /\ forall v, ~ In (s_stdlib, v) vals) as [NV NS].
-  { split.
-    - unfold vals. apply NoDup_map_inj_on; [exact ND|]. intros x y Hx Hy Exy.
-      destruct (apply_replaces_cases rsl x) as [Ex|(r1 & R1 & M1 & Ex)], (apply_replaces_cases rsl y) as [Ey|(r2 & R2 & M2 & Ey)].
-      + congruence.
-      + exfalso. rewrite Ex, Ey in Exy. destruct (P5 r2 R2) as (N1 & _). apply N1. replace (rr_new r2) with (fst x) by (rewrite Exy; reflexivity). now apply in_map.
-      + exfalso. rewrite Ex, Ey in Exy. destruct (P5 r1 R1) as (N1 & _). apply N1. replace (rr_new r1) with (fst y) by (rewrite <- Exy; reflexivity). now apply in_map.
-      + rewrite Ex, Ey in Exy. assert (r1 = r2) by (apply (NoDup_map_eq rr_new rsl); auto; unfold newp in Exy; congruence). subst r2.
-        apply rr_matches_old in M1, M2. apply (NoDup_map_eq fst reqs); auto. congruence.
-    - intros v Hin. unfold vals in Hin. apply in_map_iff in Hin as (q & Eq & Hq).
-      destruct (apply_replaces_cases rsl q) as [Ex|(r1 & R1 & M1 & Ex)]; rewrite Ex in Eq.
-      + apply P2. apply in_map_iff. exists q. split; [now rewrite Eq|exact Hq].
-      + destruct (P5 r1 R1) as (_ & _ & N3). apply N3. unfold newp in Eq. congruence. }
+  { split; [exact P5|].
+    intros v Hin. unfold vals in Hin. apply in_map_iff in Hin as (q & Eq & Hq).
+    destruct (apply_replaces_cases rsl q) as [Ex|(r1 & R1 & M1 & Ex)]; rewrite Ex in Eq.
+    + apply P2. apply in_map_iff. exists q. split; [now rewrite Eq|exact Hq].
+    + apply (P4 r1 R1). unfold newp in Eq. congruence. }
   assert (forall k, gmap_mem k (map (fun x : pkg => (x, x)) vals) = pkg_mem k vals) as Hd by (intros k; apply gmap_mem_diag).
   unfold expected_gomod. fold reqs rsl vals. set (gv := stdlib_version (gq_go rs) (gq_toolchain rs)).
   unfold gkey in *.
@@ -553,3 +538,14 @@ Proof.
       * intros Hin. apply in_map_iff in Hin as ([k v] & Es & Hin). cbn [snd] in Es. subst v. now destruct (I2 k p Hin).
       * intros Hin. apply in_map_iff. exists (ke p). split; [reflexivity|now apply I3].
 Qed.
+
+(* outside the domain: a version-less directive whose left side is the replacement of an earlier directive is applied to
+   the already replaced entry (a => b, b => c reports c for the requirement a) *)
+Definition gomod_chain_witness : gomod_recs :=
+  {| gq_requires := [([97], [49;46;48;46;48])];
+     gq_replaces := [ {| rr_old := [97]; rr_oldv := []; rr_new := [98]; rr_newv := [49;46;49;46;48] |};
+                      {| rr_old := [98]; rr_oldv := []; rr_new := [99]; rr_newv := [49;46;50;46;48] |} ];
+     gq_go := []; gq_toolchain := [] |}.
+Lemma gomod_chain_refuted_lemma :
+  exists rs, wf_gomod_base rs = true /\ extract_gomod (struct_of_gomod rs) <> Ok (expected_gomod rs).
+Proof. exists gomod_chain_witness. split; [reflexivity|]. vm_compute. discriminate. Qed.
